@@ -501,7 +501,7 @@ func extra8C02(c *Ctx) {
 	}
 	info := f.Info()
 	g := c.G(f)
-	list, ok := m.collectsLoaded(f)
+	list, ok := m.snapshotLocal(f) // collected in the function itself, or by a helper that does nothing else
 	c.Check(rule, f.Key()+" candidates are all loaded runners", c.Pos(f.Decl), list != nil && ok, "no loop over the loaded table whose whole body appends the runner to the candidate list (under loadedMu): some loaded runners are not candidates")
 	if list == nil {
 		return
@@ -536,13 +536,9 @@ func extra8C02(c *Ctx) {
 		if ix, isIx := r.(*ast.IndexExpr); isIx && core.UsesObj(info, ix.X, list) {
 			fromList = true
 		}
-		if id, isId := r.(*ast.Ident); isId {
-			for _, rl := range rangeLoops(f) {
-				if rl.Over == list && rl.Stmt.Value != nil {
-					if vid, isV := rl.Stmt.Value.(*ast.Ident); isV && info.Defs[vid] == info.Uses[id] {
-						fromList = true
-					}
-				}
+		for _, lp := range listLoops(info, f.Body) { // the current element of a loop over the list, in any spelling
+			if lp.List == list && within(lp.Stmt, ex.Return) && lp.IsElem(r) {
+				fromList = true
 			}
 		}
 		c.Check(rule, f.Key()+" return#"+itoa(n)+" is one of the candidates", c.Pos(ex.Return), fromList, "the victim `"+core.ExprString(r)+"` is not taken from the candidate list")
